@@ -647,6 +647,8 @@ def _c12_history(case, sf, hist):
             cur_before = st.cur
             hist.apply_op(api, st, op)
             hist.observe(api, st)
+            from . import oderiv
+            hist.probe_unlisted(api, st, len(st.log) - 1, oderiv.derive, oread.read_smiles, oderiv.compare_with_output)
             if st.cur is cur_before and _dec(probe) != before:
                 st.problem("decoder(%r) changed across %s, which must leave the table unchanged" % (probe, op["op"]))
             real = [(t, c) for t, c in st.problems if c is True or (c is not False and bool(c))]
@@ -676,7 +678,8 @@ def _opname(o):
 def _hist_sig(txt):
     for key, sig in (("same object twice (not a private copy)", "alphabet-aliased"), ("robust alphabet contains", "alphabet-content"),
                      ("robust alphabet lacks", "alphabet-content"), ("preset", "preset-changed"),
-                     ("get_semantic_constraints()", "get-differs"), ("decoder(", "translation-changed"),
+                     ("get_semantic_constraints()", "get-differs"), ("does not follow the table last accepted", "translation-ignores-table"),
+                     ("decoder(", "translation-changed"),
                      ("accepted", "accepted-invalid"), ("rejected", "rejected-valid")):
         if key in txt:
             return sig
